@@ -949,7 +949,7 @@ impl World {
 			}
 		};
 		let sigs: Vec<String> = txs.iter().map(|t| self.tx_sig(t)).collect();
-		let key = format!("b{}|{}", self.head, sigs.join(" "));
+		let key = format!("b{}|w{}|{}", self.head, self.cfg.mine_w, sigs.join(" "));
 		let listing = format!("[{}]", sigs.join(","));
 		if key == self.last_probe {
 			self.stat("mine-oracle:unchanged-skipped");
@@ -958,6 +958,31 @@ impl World {
 		let w: u64 = txs.iter().map(|t| t.weight()).sum();
 		self.stat_max("mineable:max-raw-weight", w);
 		self.stat_max("mineable:max-txs", txs.len() as u64);
+		// the weight of what was selected (cut-through applied), against the limit the property fixes:
+		// min(max_block_weight, mineable_max_weight) minus one output and one kernel for the coinbase
+		if !txs.is_empty() {
+			if let Ok(agg) = transaction::aggregate(&txs) {
+				let limit = global::max_block_weight().min(self.cfg.mine_w).saturating_sub(21 + 3);
+				let aw = agg.weight();
+				self.stat_max("mineable:max-selected-weight", aw);
+				if aw <= limit {
+					self.stat(&format!("mineable:room-left={}", match limit - aw { 0..=9 => "0-9", 10..=24 => "10-24", 25..=49 => "25-49", _ => "50+" }));
+				}
+				out.line(&format!("pool mine_weight limit={}", self.cfg.mine_w), &format!("{}", aw));
+				if aw > limit {
+					out.raw(&format!(
+						"#ORACLE-FAIL C14 mineable-set-over-the-weight-limit hist={} after [{}]: the mineable set {} weighs {} (aggregated), more than min(max_block_weight {}, mineable_max_weight {}) - 24 = {}",
+						self.name,
+						ctx,
+						listing,
+						aw,
+						global::max_block_weight(),
+						self.cfg.mine_w,
+						limit
+					));
+				}
+			}
+		}
 		let verdict = (|| -> Result<(), String> {
 			let b = self.kit.assemble(self.head, 1, &txs, 0).map_err(|e| format!("assemble:{}", e))?;
 			let prev = self.kit.blks[self.head].block.header.clone();
@@ -1044,7 +1069,9 @@ impl World {
 		}
 		for (place, e) in all {
 			let min = e.tx.weight() * FEE_BASE;
-			let bad_fee = e.tx.shifted_fee() < min;
+			// shifted fee as the protocol defines it, computed from the kernels themselves: the sum of the
+			// kernel fees shifted right by the largest fee_shift
+			let bad_fee = shifted_fee_of(&e.tx) < min;
 			let heavy = e.tx.weight() > global::max_tx_weight();
 			let h = e.tx.hash();
 			if !self.validated.contains(&h) {
@@ -1682,6 +1709,25 @@ impl World {
 	}
 }
 
+/// (sum of kernel fees) >> (largest kernel fee_shift), from the kernel features directly
+fn shifted_fee_of(tx: &Transaction) -> u64 {
+	let mut fee = 0u64;
+	let mut shift = 0u8;
+	for k in tx.kernels() {
+		let f = match k.features {
+			KernelFeatures::Plain { fee } => Some(fee),
+			KernelFeatures::HeightLocked { fee, .. } => Some(fee),
+			KernelFeatures::NoRecentDuplicate { fee, .. } => Some(fee),
+			KernelFeatures::Coinbase => None,
+		};
+		if let Some(f) = f {
+			fee = fee.saturating_add(f.fee());
+			shift = shift.max(f.fee_shift());
+		}
+	}
+	fee >> shift
+}
+
 fn pick_src(rng: &mut Rng) -> TxSource {
 	match rng.below(4) {
 		0 => TxSource::PushApi,
@@ -1795,7 +1841,14 @@ fn random_submission(w: &mut World, out: &mut Out, rng: &mut Rng) -> bool {
 		}
 		let nout = rng.range(1, 3) as usize;
 		let fee = World::good_fee(rng, World::weight_of(nin, nout));
-		(w.spend(&ins, nout, fee, None), vec![], "valid")
+		if rng.chance(1, 5) {
+			// with a fee shift: pays 2^shift times as much, the pool's fee test shifts it back
+			let shift = rng.range(1, 5);
+			let f = KernelFeatures::Plain { fee: FeeFields::new(shift, fee << shift).unwrap() };
+			(w.spend(&ins, nout, fee << shift, Some(f)), vec![], "valid-fee-shifted")
+		} else {
+			(w.spend(&ins, nout, fee, None), vec![], "valid")
+		}
 	} else if kind < 42 {
 		// dependent: spends output(s) created in the pool (child / grandchild / multi-parent)
 		let cands = if stem { &all_pool_outs } else { &pool_outs };
@@ -1822,7 +1875,13 @@ fn random_submission(w: &mut World, out: &mut Out, rng: &mut Rng) -> bool {
 		}
 		let nout = rng.range(1, 2) as usize;
 		let fee = World::good_fee(rng, World::weight_of(ins.len(), nout));
-		(w.spend(&ins, nout, fee, None), vec![], label)
+		if rng.chance(1, 5) {
+			let shift = rng.range(1, 5);
+			let f = KernelFeatures::Plain { fee: FeeFields::new(shift, fee << shift).unwrap() };
+			(w.spend(&ins, nout, fee << shift, Some(f)), vec![], "dependent-fee-shifted")
+		} else {
+			(w.spend(&ins, nout, fee, None), vec![], label)
+		}
 	} else if kind < 50 {
 		// conflicting double spend of something a pool tx already spends
 		let spent: Vec<usize> = w.pool_spent().into_iter().collect();
@@ -2756,11 +2815,19 @@ struct Node {
 	parent: Option<usize>,
 	nout: usize,
 	fee: u64,
+	/// `fee_shift` of the kernel (HF4 priority hint): the pool's minimum-fee test uses fee >> shift
+	shift: u8,
 }
 
 fn node(parent: Option<usize>, nout: usize, rate: u64) -> Node {
 	// weight of a 1-input, `nout`-output, 1-kernel transaction times the wanted fee rate
-	Node { parent, nout, fee: World::weight_of(1, nout) * rate + 7 }
+	Node { parent, nout, fee: World::weight_of(1, nout) * rate + 7, shift: 0 }
+}
+
+/// as `node`, the kernel carrying a fee shift (`rate` is the UNSHIFTED fee per weight; the shifted
+/// rate is rate >> shift)
+fn node_s(parent: Option<usize>, nout: usize, rate: u64, shift: u8) -> Node {
+	Node { parent, nout, fee: World::weight_of(1, nout) * rate + 7, shift }
 }
 
 /// Steered fee patterns over dependency TREES (see `bucket_transactions`): a child that lowers
@@ -2808,6 +2875,16 @@ fn tree_patterns() -> Vec<(&'static str, Vec<Node>, bool)> {
 		("at-capacity:P-C:new-child-cheapest-alone", vec![node(None, 1, 200), node(Some(0), 1, 10)], true),
 		// ... the new child pays most: an independent entry goes
 		("at-capacity:F1-F2-P-C:new-child-pays-most", vec![node(None, 1, 300), node(None, 1, 250), node(None, 1, 200), node(Some(2), 1, 500)], true),
+		// FEE SHIFTS (the shifted fee is not additive under aggregation; `fee_rate` is unshifted).
+		// Parent with fee_shift 3 whose SHIFTED rate (4) is the lowest in the pool, 0-conf child
+		// without shift; two fillers; an outsider evicts
+		("shift:F1-F2-P3-C0:parent-shifted-rate-lowest", vec![node(None, 1, 40), node(None, 1, 30), node_s(None, 1, 34, 3), node(Some(2), 1, 36)], true),
+		// the reverse: parent without shift paying little, child with fee_shift 3
+		("shift:F1-F2-P0-C3:child-shifted", vec![node(None, 1, 40), node(None, 1, 30), node(None, 1, 10), node_s(Some(2), 1, 34, 3)], true),
+		// parent shifted, child lowers the bucket (own bucket), grandchild shifted
+		("shift:P2-C0-G2:own-bucket-child", vec![node_s(None, 1, 100, 2), node(Some(0), 2, 12), node_s(Some(1), 1, 90, 2), node(None, 1, 50)], false),
+		// at capacity when a shifted child arrives right after its shifted parent and pays least
+		("at-capacity:shift:F1-F2-P1-C4:new-shifted-child-cheapest", vec![node(None, 1, 300), node(None, 1, 250), node_s(None, 1, 200, 1), node_s(Some(2), 1, 33, 4)], true),
 		// the bucket of D+E+F would outrank P's if they were bucketed together (221 vs 200): P must stay
 		("P-D-EF:subtree-outranks-root", vec![node(None, 1, 200), node(Some(0), 2, 150), node(Some(1), 1, 160), node(Some(1), 1, 199)], true),
 	]
@@ -2865,6 +2942,8 @@ fn scenario_evict_trees(work: &str, out: &mut Out, total: &mut BTreeMap<String, 
 		"at-capacity:F1-F2-P-C:new-child-cheapest-own-bucket",
 		"at-capacity:F1-F2-P-C:new-child-cheapest-merged",
 		"at-capacity:F1-P-C1-C2:new-second-child-cheapest",
+		"shift:F1-F2-P3-C0:parent-shifted-rate-lowest",
+		"shift:F1-F2-P0-C3:child-shifted",
 		"P-D-EF:E-cheapest",
 		"P-D-EF:F-cheapest",
 		"P-D-EF:D-cheapest",
@@ -2930,7 +3009,12 @@ fn scenario_evict_trees(work: &str, out: &mut Out, total: &mut BTreeMap<String, 
 					o
 				}
 			};
-			let tx = match w.spend(&[input], n.nout, n.fee, None) {
+			let feat = if n.shift > 0 {
+				FeeFields::new(n.shift as u64, n.fee).ok().map(|fee| KernelFeatures::Plain { fee })
+			} else {
+				None
+			};
+			let tx = match w.spend(&[input], n.nout, n.fee, feat) {
 				Some(t) => t,
 				None => {
 					all_in = false;
@@ -3781,6 +3865,233 @@ fn scenario_recreated_commitment(work: &str, out: &mut Out, total: &mut BTreeMap
 	merge_stats(&w, total);
 }
 
+
+/// The mineable set under the DEFAULT configuration (`PoolConfig::default().mineable_max_weight`,
+/// the consensus constant - far above this chain type's `max_block_weight`) and under limits around
+/// the block limit, with MORE than a block's worth of transactions of mixed weights pooled, so that
+/// the selection lands within the last few dozen weight units below the limit.  The selected weight
+/// must never exceed min(max_block_weight, mineable_max_weight) - 24 (one output and one kernel for
+/// the coinbase) and the block built from it must be accepted by a chain.
+fn scenario_mine_limit(work: &str, out: &mut Out, total: &mut BTreeMap<String, u64>) {
+	let mut rng = Rng::new(seed_from_env().wrapping_mul(37).wrapping_add(901));
+	let default_w = PoolConfig::default().mineable_max_weight;
+	let mut w = World::new(work, "mine-limit", Cfg { max_pool: 50, max_stem: 50, mine_w: default_w });
+	print_cfg(&w, out);
+	warm_up(&mut w, out, &mut rng, 9);
+	// plenty of plain outputs: two blocks that split a coinbase into eight
+	for _ in 0..3 {
+		let free = w.free_utxo();
+		let mut txs = vec![];
+		if let Some(o) = free.iter().cloned().find(|o| w.kit.outs[*o].coinbase) {
+			if let Some(t) = w.spend(&[o], 8, World::weight_of(1, 8) * FEE_BASE, None) {
+				txs.push(t);
+			}
+		}
+		let parent = w.head;
+		if let Some(id) = w.build_block(parent, 1, &txs).or_else(|| w.build_block(parent, 1, &[])) {
+			w.deliver(out, id);
+		}
+	}
+	w.print_head(out);
+	w.obs(out, "start");
+	let maxw = global::max_block_weight();
+	out.raw(&format!(
+		"#STAT scenario:mine-limit:PoolConfig-default-mineable_max_weight={} max_block_weight={} coinbase-reserve=24",
+		default_w, maxw
+	));
+	let limits = [default_w, maxw, maxw - 1, maxw - 24, maxw - 23, maxw - 25, maxw + 1, 24, 49, 50];
+	let set_limit = |w: &mut World, out: &mut Out, l: u64| {
+		w.pool.config.mineable_max_weight = l;
+		w.cfg.mine_w = l;
+		out.raw(&format!(
+			"pool cfg max_pool={} max_stem={} mine_w={} fee_base={} max_tx_w={} max_block_w={} maturity={}",
+			w.cfg.max_pool,
+			w.cfg.max_stem,
+			w.cfg.mine_w,
+			FEE_BASE,
+			global::max_tx_weight(),
+			global::max_block_weight(),
+			MATURITY
+		));
+	};
+	for round in 0..3 {
+		// more than two blocks' worth, mixed weights (25, 26, 46, 47, 67), random distinct rates,
+		// a few 0-conf children (cut-through lowers the aggregate weight)
+		set_limit(&mut w, out, default_w);
+		let mut free = w.free_utxo();
+		let shapes: [(usize, usize); 14] =
+			[(1, 3), (1, 2), (1, 1), (2, 1), (1, 2), (1, 1), (1, 1), (2, 2), (1, 3), (1, 1), (1, 2), (1, 1), (1, 1), (1, 1)];
+		let mut weight_pooled = 0u64;
+		for (k, (nin, nout)) in shapes.iter().enumerate() {
+			if free.len() < *nin {
+				break;
+			}
+			let mut ins = vec![];
+			for _ in 0..*nin {
+				let i = rng.below(free.len() as u64) as usize;
+				ins.push(free.swap_remove(i));
+			}
+			// some spend a pooled output instead (child)
+			if k % 5 == 4 {
+				let po = w.pool_outputs(false);
+				if let Some((o, _)) = po.first().cloned() {
+					let back = ins[0];
+					ins[0] = o;
+					free.push(back);
+				}
+			}
+			let wt = World::weight_of(*nin, *nout);
+			let fee = wt * (FEE_BASE + rng.below(40)) + rng.below(wt);
+			if let Some(tx) = w.spend(&ins, *nout, fee, None) {
+				let t = w.add_tx(out, tx, vec![], "mine-limit:filler");
+				if w.submit_form(out, t, TxSource::Broadcast, false, true, if k % 2 == 0 { Form::V3 } else { Form::V2 }) == "ok" {
+					weight_pooled += wt;
+				}
+			}
+		}
+		w.stat_max("mine-limit:max-pooled-weight", weight_pooled);
+		for l in limits.iter() {
+			set_limit(&mut w, out, *l);
+			w.obs(out, &format!("mineable_max_weight set to {}", l));
+			w.stat(&format!("mine-limit:limit={}", l));
+		}
+		// mine with a limit around the block limit, then go on with what is left
+		let l = [default_w, maxw - 23, maxw][round % 3];
+		set_limit(&mut w, out, l);
+		let txs = w.pool.prepare_mineable_transactions().unwrap_or_default();
+		let parent = w.head;
+		if let Some(id) = w.build_block(parent, 1, &txs) {
+			w.deliver(out, id);
+		}
+		for l in [default_w, maxw - 24] {
+			set_limit(&mut w, out, l);
+			w.obs(out, &format!("mineable_max_weight set to {}", l));
+		}
+	}
+	merge_stats(&w, total);
+}
+
+/// Fee shifts 1..15 against the minimum-fee clause (`shifted_fee = Σ fees >> max fee_shift` must be
+/// at least weight × accept_fee_base): exactly enough and one below, fluff and stem, both forms;
+/// shifted transactions inside aggregates with pooled ones (deaggregated on the fluff path, taken as
+/// a whole on the stem path).
+fn scenario_fee_shift(work: &str, out: &mut Out, total: &mut BTreeMap<String, u64>) {
+	let mut rng = Rng::new(seed_from_env().wrapping_mul(41).wrapping_add(951));
+	let mut w = World::new(work, "fee-shift", Cfg { max_pool: 50, max_stem: 50, mine_w: 250 });
+	print_cfg(&w, out);
+	warm_up(&mut w, out, &mut rng, 9);
+	for _ in 0..2 {
+		let free = w.free_utxo();
+		let mut txs = vec![];
+		if let Some(o) = free.iter().cloned().find(|o| w.kit.outs[*o].coinbase) {
+			if let Some(t) = w.spend(&[o], 8, World::weight_of(1, 8) * FEE_BASE, None) {
+				txs.push(t);
+			}
+		}
+		let parent = w.head;
+		if let Some(id) = w.build_block(parent, 1, &txs).or_else(|| w.build_block(parent, 1, &[])) {
+			w.deliver(out, id);
+		}
+	}
+	w.print_head(out);
+	w.obs(out, "start");
+	let w11 = World::weight_of(1, 1);
+	let min = w11 * FEE_BASE;
+	let check = |w: &mut World, out: &mut Out, t: usize, res: &str, label: &str| {
+		let tx = w.txs[t].tx.clone();
+		if tx.kernels().len() != 1 {
+			return;
+		}
+		let need = tx.weight() * FEE_BASE;
+		let have = shifted_fee_of(&tx);
+		if have < need && res == "ok" {
+			out.raw(&format!(
+				"#ORACLE-FAIL C14 under-paying-shifted-transaction-admitted hist={} t{} ({}): shifted fee {} < minimum {}",
+				w.name, t, label, have, need
+			));
+		}
+		if have >= need && res == "err:LowFee" {
+			out.raw(&format!(
+				"#ORACLE-FAIL C14 adequately-paying-shifted-transaction-refused-as-LowFee hist={} t{} ({}): shifted fee {} >= minimum {}",
+				w.name, t, label, have, need
+			));
+		}
+	};
+	for shift in 1u64..=15 {
+		let free = w.free_utxo();
+		if free.len() < 2 {
+			break;
+		}
+		for (k, fee) in [(min << shift) - 1, min << shift].iter().enumerate() {
+			let f = KernelFeatures::Plain { fee: FeeFields::new(shift, *fee).unwrap() };
+			if let Some(tx) = w.spend(&[free[k]], 1, *fee, Some(f)) {
+				let label = if k == 0 { "fee-shift:one-below-minimum" } else { "fee-shift:exactly-minimum" };
+				let t = w.add_tx(out, tx, vec![], label);
+				let stem = (shift + k as u64) % 2 == 0;
+				let form = if shift % 3 == 0 { Form::V2 } else { Form::V3 };
+				let res = w.submit_form(out, t, TxSource::PushApi, stem, true, form);
+				w.stat(&format!("fee-shift:shift={}:{}:{}", shift, if k == 0 { "below" } else { "exact" }, res));
+				check(&mut w, out, t, &res, label);
+				if k == 0 {
+					// the other path too
+					let res = w.submit_form(out, t, TxSource::Broadcast, !stem, true, form);
+					check(&mut w, out, t, &res, label);
+				}
+			}
+		}
+		if shift % 5 == 0 {
+			// aggregates: a pooled transaction without shift + a new shifted one that is below its own
+			// minimum although the aggregate's unshifted fees look plentiful
+			let pooled: Vec<Transaction> = w.pool.txpool.entries.iter().map(|e| e.tx.clone()).collect();
+			let free = w.free_utxo();
+			if let (Some(p), Some(o)) = (pooled.first(), free.first()) {
+				for fee in [(min << shift) - 1, min << shift] {
+					let f = KernelFeatures::Plain { fee: FeeFields::new(shift, fee).unwrap() };
+					if let Some(n) = w.spend(&[*o], 1, fee, Some(f)) {
+						w.submit_aggregate(out, &[p.clone()], &[n.clone()], "fee-shift:aggregate-pooled+shifted", TxSource::Broadcast, false, true);
+						w.submit_aggregate(out, &[p.clone()], &[n], "fee-shift:aggregate-pooled+shifted", TxSource::PushApi, true, true);
+					}
+				}
+			}
+			// an aggregate of two NEW transactions with different shifts (2 and 3), nothing of it pooled:
+			// taken as a whole on both paths; its shifted fee is (f1 + f2) >> max(2, 3) - exactly the
+			// minimum for its weight, and one below
+			let free = w.free_utxo();
+			if free.len() >= 4 {
+				for (k, total_fee) in [(2 * min) << 3, ((2 * min) << 3) - 1].iter().enumerate() {
+					let f1 = total_fee / 2;
+					let f2 = total_fee - f1;
+					let k1 = KernelFeatures::Plain { fee: FeeFields::new(2, f1).unwrap() };
+					let k2 = KernelFeatures::Plain { fee: FeeFields::new(3, f2).unwrap() };
+					if let (Some(n1), Some(n2)) = (w.spend(&[free[2 * k]], 1, f1, Some(k1)), w.spend(&[free[2 * k + 1]], 1, f2, Some(k2))) {
+						if let Ok(agg) = transaction::aggregate(&[n1, n2]) {
+							let label = if k == 0 { "fee-shift:aggregate-shifts-2+3:exactly-minimum" } else { "fee-shift:aggregate-shifts-2+3:one-below" };
+							let t = w.add_tx(out, agg.clone(), vec![], label);
+							let stem = (shift / 5) % 2 == 0;
+							let res = w.submit_form(out, t, TxSource::PushApi, stem, true, Form::V3);
+							let need = agg.weight() * FEE_BASE;
+							let have = shifted_fee_of(&agg);
+							w.stat(&format!("fee-shift:aggregate-2+3:{}:{}", if have >= need { "enough" } else { "below" }, res));
+							if have < need && res == "ok" {
+								out.raw(&format!("#ORACLE-FAIL C14 under-paying-shifted-transaction-admitted hist={} t{} ({}): shifted fee {} < minimum {}", w.name, t, label, have, need));
+							}
+							if have >= need && res == "err:LowFee" {
+								out.raw(&format!("#ORACLE-FAIL C14 adequately-paying-shifted-transaction-refused-as-LowFee hist={} t{} ({}): shifted fee {} >= minimum {}", w.name, t, label, have, need));
+							}
+						}
+					}
+				}
+			}
+			let txs = w.pool.prepare_mineable_transactions().unwrap_or_default();
+			let parent = w.head;
+			if let Some(id) = w.build_block(parent, 1, &txs) {
+				w.deliver(out, id);
+			}
+		}
+	}
+	merge_stats(&w, total);
+}
+
 fn run_history(
 	work: &str,
 	out: &mut Out,
@@ -3917,6 +4228,8 @@ fn main() {
 			jobs.push((format!("evict-children-{}", v), Box::new(move |w, o, t| scenario_evict_children(w, o, t, v))));
 		}
 		jobs.push(("forms".into(), Box::new(|w, o, t| scenario_forms(w, o, t))));
+		jobs.push(("mine-limit".into(), Box::new(|w, o, t| scenario_mine_limit(w, o, t))));
+		jobs.push(("fee-shift".into(), Box::new(|w, o, t| scenario_fee_shift(w, o, t))));
 		jobs.push(("recreated-commitment".into(), Box::new(|w, o, t| scenario_recreated_commitment(w, o, t))));
 		jobs.push(("header-gap".into(), Box::new(|w, o, t| scenario_header_gap(w, o, t))));
 		jobs.push(("degenerate".into(), Box::new(|w, o, t| scenario_degenerate(w, o, t))));
